@@ -1070,12 +1070,13 @@ impl EnergyWorld {
         if have.is_zero() {
             return one;
         }
-        match rng.below(12) {
-            0 => one,
-            1 | 2 | 3 => have.clone(),
-            4 => have / 2u32 + &one,
-            5 => have + &one, // over the balance: must fail
-            6 => BigUint::from(rng.range(1, 20_000)).min(have.clone()),
+        match rng.below(40) {
+            39 => BigUint::zero(), // zero-amount payment
+            0 | 12 | 24 => one,
+            1 | 2 | 3 | 13 | 14 | 15 | 25 | 26 | 27 => have.clone(),
+            4 | 16 | 28 => have / 2u32 + &one,
+            5 | 17 => have + &one, // over the balance: must fail
+            6 | 18 | 30 => BigUint::from(rng.range(1, 20_000)).min(have.clone()),
             _ => rng.big_range(&one, have),
         }
     }
